@@ -332,9 +332,43 @@ def run_scenario(sc):
                 fails.append(("map-iteration-fires-early:%s" % sc["inner"], "scenario %s: %d blocks of %s s finished %.3f s after the Map was delivered, not before %.3f s possible" % (json.dumps(sc), blocks, per, t_end - entered - late, blocks * per)))
             elif t_end > expect + 1e-3:
                 fails.append(("map-iteration-fires-late:%s" % sc["inner"], "scenario %s: finished at +%.3f, expected +%.3f" % (json.dumps(sc), t_end - entered - late, blocks * per)))
+        elif kind == "child-clock":
+            # a child execution launched synchronously by a Task whose event is handled late: the child's clocks (its start-state Wait, its own TimeoutSeconds) start
+            # when the child is started, not when the launching state was entered
+            secs, late = sc["seconds"], sc.get("late", 0)
+            if sc["inner"] == "wait":
+                cdef = {"StartAt": "W", "States": {"W": {"Type": "Wait", "Seconds": secs, "End": True}}}
+                per = secs
+            else:
+                cdef = {"TimeoutSeconds": secs, "StartAt": "T", "States": {"T": {"Type": "Task", "Resource": W.fn_arn("f"), "End": True}}}
+                w.add_worker("f", lambda i, p, props: [(secs - 1, p)])          # the reply comes one second before the child's own deadline
+                per = secs - 1
+            w.create_state_machine("c", cdef, type_="EXPRESS" if sc["form"] == "sdk" else "STANDARD")
+            res_ = {"sync": "arn:aws:states:::states:startExecution.sync", "sync2": "arn:aws:states:::states:startExecution.sync:2", "sdk": "arn:aws:states:::aws-sdk:sfn:startSyncExecution"}[sc["form"]]
+            definition = {"StartAt": "P", "States": {"P": {"Type": "Pass", "Next": "L"}, "L": {"Type": "Task", "Resource": res_, "Parameters": {"StateMachineArn": W.sm_arn("c"), "Input": {"a": 1}}, "End": True}}}
+            w.create_state_machine("m", definition)
+            _, r = w.start_execution(arn_sm, {}, name="e")
+            arn = r["executionArn"]
+            w.step(0)                                 # start event -> Pass; the launching Task's event is queued
+            entered = w.clock.now
+            w.clock.advance_to(entered + late)        # ... and handled late
+            w.run()
+            t_end, detail = terminal_time(w, arn)
+            expect = entered + late + per
+            if t_end is None or detail["status"] != "SUCCEEDED":
+                fails.append(("child-clock:%s-ended-%s" % (sc["inner"], str(detail and detail.get("error"))), "scenario %s: the parent ended %r" % (json.dumps(sc), detail and {k: detail.get(k) for k in ("status", "error", "cause")})))
+            elif t_end < expect - 1e-3:
+                fails.append(("child-clock-fires-early:%s" % sc["inner"], "scenario %s: finished %.3f s after the launching Task was handled, not before %.3f s possible" % (json.dumps(sc), t_end - entered - late, per)))
+            elif t_end > expect + 1e-3:
+                fails.append(("child-clock-fires-late:%s" % sc["inner"], "scenario %s: finished at +%.3f, expected +%.3f" % (json.dumps(sc), t_end - entered - late, per)))
         else:
             raise HarnessError("unknown scenario kind %r" % kind)
-        terms = [n["body"]["detail"]["status"] for n in w.notifications if n["body"]["detail"]["status"] != "RUNNING"]
+        terms = {}
+        for n in w.notifications:
+            d_ = n["body"]["detail"]
+            if d_["status"] != "RUNNING":
+                terms.setdefault(d_.get("executionArn"), []).append(d_["status"])
+        terms = next((v for v in terms.values() if len(v) > 1), [])
         if len(terms) > 1:
             fails.append(("dead-timer-fired", "scenario %s: a superseded timer still acted: terminal notifications %r" % (json.dumps(sc), terms)))
         if w.broker.protocol_errors:
@@ -375,9 +409,12 @@ def engine_shard(k, seed, tier, examples=40):
     mapb = st.fixed_dictionaries({"kind": st.just("map-blocks"), "tz": tz, "items": st.integers(2, 4), "mc": st.sampled_from([0, 1, 1, 2]), "seconds": st.integers(2, 5),
                                   "inner": st.sampled_from(["wait", "task"]), "late": st.sampled_from([0, 0, 3]), "selector": st.booleans()})
 
+    childc = st.fixed_dictionaries({"kind": st.just("child-clock"), "tz": tz, "form": st.sampled_from(["sync", "sync2", "sdk"]), "seconds": st.integers(3, 8),
+                                    "inner": st.sampled_from(["wait", "timeout"]), "late": st.sampled_from([0, 2, 5])})
+
     @hypothesis.seed(seed)
     @settings(max_examples=examples, deadline=None, database=None, suppress_health_check=list(HealthCheck), phases=[Phase.generate])
-    @given(st.one_of(wait, wait, wait_crash, task, task, xt, xt_late, cw, mapb, xt_retry))
+    @given(st.one_of(wait, wait, wait_crash, task, task, xt, xt_late, cw, mapb, xt_retry, childc))
     def run(sc):
         try:
             fails = run_scenario(sc)
